@@ -90,6 +90,7 @@ var Locals = []string{"", ".", "..", "a/b", "/abs", "x/../y", "..foo", "a\\b", "
 	"dRXMZnxbrisRq3jRfNb1VOMloQlF7TeT7BOK0ED1mQA", "pkgA", "pkgB", "pkgA", "ünï", "with space", "a\x00b", "..\\..", "c:", "~", "-", strings.Repeat("n", 300)}
 
 var Sources = []string{"git::https://example.com/a.git", "https://example.com/b.tgz", "git::https://example.com/a.git?ref=v1", "git::https://example.com/c.git//sub", "https://example.com/dl?archive=tgz",
+	"git::https://example.com/b.tgz", // the same URL text as the second one, another source type: another package
 	"", "not a url", "./local", "hashicorp/x/aws", "http://example.com/plain.tgz", "git::https://user:pw@example.com/a.git", "git::https://example.com/a.git//../x", "::", "git::https://example.com/with space.git",
 	"git::https://example.com/a.git#frag", "git::ssh://git.example.com/org/repo.git"}
 
@@ -102,7 +103,7 @@ func Gen(t *rapid.T) Doc {
 	var d Doc
 	d.Format = rapid.SampledFrom([]string{"1", "1", "1", "1", "0", "2", "", "\"1\"", "1.0", "-1", "null", "18446744073709551616", "true", "[1]"}).Draw(t, "format")
 	d.Packages = rapid.SliceOfN(rapid.Custom(func(t *rapid.T) Pkg {
-		p := Pkg{Source: rapid.SampledFrom(Sources[:5]).Draw(t, "src"), Local: rapid.SampledFrom([]string{"pkgA", "pkgB", "pkgC", "dRXMZnxbrisRq3jRfNb1VOMloQlF7TeT7BOK0ED1mQA"}).Draw(t, "local")}
+		p := Pkg{Source: rapid.SampledFrom(Sources[:6]).Draw(t, "src"), Local: rapid.SampledFrom([]string{"pkgA", "pkgB", "pkgC", "dRXMZnxbrisRq3jRfNb1VOMloQlF7TeT7BOK0ED1mQA"}).Draw(t, "local")}
 		if rapid.IntRange(0, 2).Draw(t, "hostilelocal") == 0 {
 			p.Local = rapid.SampledFrom(Locals).Draw(t, "hlocal")
 		}
